@@ -7,7 +7,11 @@ package fbb
 
 /*@
 func fbb.cleanString(str) (r)
-  props C03
+  props C03 C05 C16
+  # at most one leading and one trailing NUL are removed from the trimmed line - nothing else
+  call strings.TrimSpace set gTrimmedLine := $r0
+  ensures only-nul-bytes-are-removed [C05 C16]: len(r) >= len(gTrimmedLine) - 2 && (len(gTrimmedLine) >= 1 && gTrimmedLine[0] != 0 && gTrimmedLine[len(gTrimmedLine) - 1] != 0 ==> same(r, gTrimmedLine)) && (len(gTrimmedLine) >= 2 && gTrimmedLine[0] != 0 && gTrimmedLine[len(gTrimmedLine) - 1] == 0 ==> len(r) == len(gTrimmedLine) - 1)
+ghost var gTrimmedLine string
 
 func fbb.errLine(str) (r)
   props C03
